@@ -44,7 +44,7 @@ ASSUMPTIONS = [
 ]
 REAL_STUB = {"real": ["onnx_ir.serde (to_proto / from_proto)", "onnx_ir core"], "stub": [], "harness_extension_points": ["LazyTensor thunks"]}
 
-EDITS = ["drop_type", "drop_shape", "empty_optional_output", "none_input", "rename_value", "rename_node", "add_node", "remove_unused", "doc", "metadata", "attr_set", "attr_del", "retensor", "symbolic_shape", "denotation", "seq_type"]
+EDITS = ["drop_type", "drop_shape", "empty_optional_output", "none_input", "rename_value", "rename_node", "add_node", "remove_unused", "doc", "metadata", "attr_set", "attr_del", "retensor", "symbolic_shape", "denotation", "seq_type", "shadow_name", "shadow_name"]
 
 
 def gen_case(run_seed: int, tier: str, index: int = 0) -> dict:
@@ -171,6 +171,35 @@ def apply_edit(model, edit, fresh) -> str:
                 iv.const_value.doc_string = "tensor doc"
             except Exception:  # noqa: BLE001
                 pass
+    elif kind == "shadow_name":
+        # a value defined inside a nested graph takes the name of a value visible from an enclosing graph that the
+        # nested graph (and anything below it) does not use: legal in the IR, and the inner definition must win inside
+        owners = [x for x in model.graph.all_nodes() if any(a_.type == ir.AttributeType.GRAPH for a_ in x.attributes.values())]
+        if not owners:
+            return "noop"
+        owner = owners[a % len(owners)]
+        subs = [a_.value for a_ in owner.attributes.values() if a_.type == ir.AttributeType.GRAPH and a_.value is not None]
+        sg = subs[b % len(subs)]
+        inner_vals = [o for x in sg for o in x.outputs if o.name]
+        if not inner_vals:
+            return "noop"
+        used_inside = {id(i) for x in sg.all_nodes() for i in x.inputs if i is not None}
+        defined_inside = {id(o) for x in sg.all_nodes() for o in x.outputs} | {id(i) for i in sg.inputs} | {id(i) for i in sg.initializers.values()}
+        og = owner.graph
+        if og is None:
+            return "noop"
+        outer = list(og.inputs) + list(og.initializers.values())
+        for x in og:
+            if x is owner:
+                break
+            outer.extend(x.outputs)
+        outer = [o for o in outer if o.name and id(o) not in used_inside and id(o) not in defined_inside and not o.is_initializer()]
+        inner_names = {o.name for x in sg.all_nodes() for o in x.outputs} | {i.name for i in sg.inputs} | set(sg.initializers)
+        outer = [o for o in outer if o.name not in inner_names]
+        if not outer:
+            return "noop"
+        tgt = inner_vals[(a >> 4) % len(inner_vals)]
+        tgt.name = outer[(b >> 4) % len(outer)].name
     elif kind == "symbolic_shape" and v is not None:
         v.shape = ir.Shape(["batch", 3, None][: 1 + b % 3])
     elif kind == "denotation" and v is not None:
